@@ -1,4 +1,5 @@
 import BeffVerif.Props.C13
+import BeffVerif.Props.C13Inj
 open BeffVerif.C13
 #print axioms writer_digest_eq_spec
 #print axioms writer_digest_eq_spec_param
@@ -9,3 +10,7 @@ open BeffVerif.C13
 #print axioms IV_is_fips
 #print axioms tag_bytes_distinct
 #print axioms hashToks_eq
+#print axioms utf8_inj
+#print axioms u32be_inj
+#print axioms tok_prefix_free
+#print axioms tokens_injective
